@@ -17,7 +17,9 @@ ID = "C20"
 RULE = ("generated fragment-F actions x type-correct calls (repeated objects, constants in argument positions, "
         "objects of subtypes).  Compared both ways as sets: grounded precondition literals and numeric "
         "conditions, add/delete/numeric effects per effect group (with the group's grounded condition), typed "
-        "literal text, typed action call.  Non-trivial = the call repeats an object or uses a constant, or a "
+        "literal text, typed action call; numeric expressions are read at 9 decimals (constants with up to 7), the function "
+        "objects hanging in the grounded trees are read with their multiplicities, and every third call is read only "
+        "after the operator answered applicability queries.  Non-trivial = the call repeats an object or uses a constant, or a "
         "literal's argument comes from a parameter whose type is a strict subtype of the predicate's declared "
         "type.  Distinct by (action, call).")
 ASSUMPTIONS = ["literals inside (forall ...) groups are not compared: they have no ground form for a call",
